@@ -2,6 +2,7 @@ package route
 
 import (
 	"math/rand/v2"
+	"strings"
 
 	"foxverif/gen"
 
@@ -105,4 +106,58 @@ func GenCase(r *rand.Rand, o GenOpts) Case {
 		c.Reqs = append(c.Reqs, Req{Method: m, Host: host, Path: path})
 	}
 	return c
+}
+
+// Churn registers routes related to the registered ones (grown from them, plus hostname variants) and deletes them
+// again, so that the tree has gone through node splits and delete-merges while the registered set is unchanged.
+// It returns the number of routes that were added and removed, and an error text if a delete failed.
+func Churn(b *Built, r *rand.Rand, pf gen.Profile, extraMethods ...string) (int, string) {
+	type mp struct{ m, p string }
+	var tmp []mp
+	have := map[string]bool{}
+	for k := range b.Spec {
+		have[k] = true
+	}
+	try := func(m, p string) {
+		if have[m+" "+p] || len(p) > 140 {
+			return
+		}
+		if _, err := b.F.Handle(m, p, b.Handler()); err == nil {
+			have[m+" "+p] = true
+			tmp = append(tmp, mp{m, p})
+		}
+	}
+	for _, rs := range b.Case.Routes {
+		if _, ok := b.Spec[rs.Method+" "+rs.Pattern]; !ok {
+			continue
+		}
+		for k := 0; k < 2; k++ {
+			try(rs.Method, gen.Grow(r, pf, rs.Pattern))
+		}
+		if i := strings.IndexByte(rs.Pattern, '/'); i > 0 {
+			h, rest := rs.Pattern[:i], rs.Pattern[i:]
+			try(rs.Method, h+".org"+rest)
+			try(rs.Method, h+"-x/zq")
+			try(rs.Method, "zq."+h+"/zq")
+			if k := strings.LastIndexByte(h, '.'); k > 0 {
+				try(rs.Method, h[:k]+"/zq")
+				try(rs.Method, h[:k]+".{hz}"+rest)
+			}
+		} else if r.IntN(3) == 0 {
+			try(rs.Method, gen.GrowHost(r, rs.Pattern))
+		}
+		for _, m := range extraMethods {
+			if r.IntN(2) == 0 {
+				try(m, rs.Pattern)
+			}
+		}
+	}
+	// delete in a random order
+	r.Shuffle(len(tmp), func(i, j int) { tmp[i], tmp[j] = tmp[j], tmp[i] })
+	for _, t := range tmp {
+		if _, err := b.F.Delete(t.m, t.p); err != nil {
+			return len(tmp), "a route registered a moment ago cannot be deleted: " + t.m + " " + t.p + ": " + err.Error()
+		}
+	}
+	return len(tmp), ""
 }
